@@ -564,6 +564,74 @@ fn main() {
             }
             cr
         }));
+        // ---- publications that FAIL (the instance does not fit what the session OTI can carry: Reed-Solomon with 255
+        // blocks of one 16-byte symbol; or it would be a Raptor block of 2-3 symbols, which flute refuses) between
+        // publications that succeed: a failed publication emits nothing and takes no instance id
+        let it = items.clone();
+        gens.push(Gen::new("failed_publish", ctx.tier.pick(48usize, 2000), move |ctx, i| {
+            let mut rng = Rng::keyed(ctx.seed, "C10f", 0, i as u64);
+            let mut oti = if i % 3 == 1 { OtiSpec::new(Fec::Raptor, 700, 16, 2) } else { OtiSpec::new(Fec::Rs28, 16, 1, 1) };
+            oti.inband_fti = true;
+            let mut spec = SenderSpec::new(oti);
+            spec.fdt_start_id = *rng.pick(&[0u32, 5, 100, (1 << 20) - 3]);
+            spec.full_fdt = i % 2 == 0;
+            spec.fdt_carousel = CarouselSpec::DelayMs(150);
+            spec.queues = vec![(0, rng.range(1, 4) as u32)];
+            let nobj = 14usize;
+            let mut objs = vec![];
+            for k in 0..nobj {
+                let mut o = ObjSpec::new(rng.bytes(20 + k), &format!("file:///failed-publish/{}/{}", "d".repeat(rng.range(1, 160) as usize), k));
+                o.oti = Some(OtiSpec::new(Fec::NoCode, 64, 4, 0));
+                if spec.full_fdt {
+                    o.carousel = Some(CarouselSpec::DelayMs(200));
+                } else {
+                    o.max_transfer_count = rng.range(1, 3) as u32;
+                }
+                objs.push(o);
+            }
+            // random walk on the number of listed objects: additions and removals every 300 ms, each followed by publish
+            let mut script = vec![(When::Start, Op::Add(0)), (When::Start, Op::Publish)];
+            let mut next = 1usize;
+            let mut live: Vec<usize> = vec![0];
+            for step in 1..10u64 {
+                let w = When::TimeMs(step * 300);
+                let grow = live.len() < 2 || (next < nobj && rng.chance(3, 5));
+                if grow && next < nobj {
+                    for _ in 0..rng.range(1, 4) {
+                        if next < nobj {
+                            script.push((w.clone(), Op::Add(next)));
+                            live.push(next);
+                            next += 1;
+                        }
+                    }
+                } else if spec.full_fdt {
+                    for _ in 0..rng.range(1, 4) {
+                        if live.len() > 1 {
+                            let k = live.remove(rng.below(live.len() as u64) as usize);
+                            script.push((w.clone(), Op::Remove(k)));
+                        }
+                    }
+                }
+                script.push((w, Op::Publish));
+            }
+            let mut opts = ScriptOpts::every(100, 45);
+            opts.stop_when_empty = false;
+            let mut cr = CaseResult::default();
+            match util::guarded(|| run_script(&spec, &objs, &script, &opts)) {
+                Ok(Ok(run)) => {
+                    judge_run(&run, "failed_publish", i, &it, &mut cr);
+                    let pubs: Vec<bool> = run.ops.iter().filter(|o| o.op == Op::Publish).map(|o| o.ok).collect();
+                    let failed_then_ok = pubs.iter().position(|x| !*x).map(|p| pubs[p..].iter().any(|x| *x)).unwrap_or(false);
+                    cr.count("publications_refused", pubs.iter().filter(|x| !**x).count() as u64);
+                    cr.count("scripts_with_a_refused_publication_followed_by_an_accepted_one", failed_then_ok as u64);
+                    let ids: Vec<u32> = instances(&run).iter().map(|x| x.id).collect();
+                    cr.sample = Some(json!({"fdt_start_id": spec.fdt_start_id, "publish_results": pubs, "instance_ids": ids}));
+                }
+                Ok(Err(e)) => cr.inconclusive = Some(e),
+                Err(p) => cr.violations.push(Violation::new("panic", format!("{} @ {}", p.msg, p.short_loc())).with("site", p.file())),
+            }
+            cr
+        }));
         // ---- supersession: an instance is replaced before it expires (drain polling, 50 ms)
         let durs: [u64; 11] = [1, 2, 3, 5, 9, 10, 11, 20, 30, 31, 60];
         gens.push(Gen::new("supersession", durs.len() * 12, move |ctx, i| {
